@@ -17,6 +17,7 @@ import traceback
 from . import symx
 
 _FN_CACHE = {}
+MAX_VIOL_PER_JOB = int(os.environ.get("VERIF_MAX_VIOL_PER_JOB", "2"))
 
 
 def _get_fn(job):
@@ -79,7 +80,7 @@ def _work(task):
 def run_jobs(jobs, nproc=None, chunk=8, max_paths_per_job=200000, on_record=None, deadline=None):
     """Explore all jobs; returns {job_id: dict(records=[...], regimes=[...], errors=[...], truncated=bool)}."""
     nproc = nproc or int(os.environ.get("VERIF_NPROC", "0") or 0) or min(16, os.cpu_count() or 1)
-    res = {j["id"]: dict(records=[], regimes=[{}], errors=[], truncated=False, funcs=set(), npaths=0) for j in jobs}
+    res = {j["id"]: dict(records=[], regimes=[{}], errors=[], truncated=False, funcs=set(), npaths=0, nviol=0, stopped=False) for j in jobs}
     by_id = {j["id"]: j for j in jobs}
     seen_reg = {j["id"]: {frozenset()} for j in jobs}
     pending = []  # tasks
@@ -105,7 +106,11 @@ def run_jobs(jobs, nproc=None, chunk=8, max_paths_per_job=200000, on_record=None
                     res[t[0]["id"]]["truncated"] = True
                 pending.clear()
             while pending and len(inflight) < nproc * 2:
-                inflight.append(pool.apply_async(_work, (pending.pop(),)))
+                t = pending.pop()
+                if res[t[0]["id"]]["nviol"] >= MAX_VIOL_PER_JOB:
+                    res[t[0]["id"]]["stopped"] = True  # enough counterexamples from this job: do not explore it further
+                    continue
+                inflight.append(pool.apply_async(_work, (t,)))
             done = [a for a in inflight if a.ready()]
             if not done:
                 time.sleep(0.01)
@@ -124,6 +129,8 @@ def _absorb(out, res, by_id, seen_reg, pending, chunk, max_paths, on_record):
         r["errors"].append(out["error"])
     for rec in out["records"]:
         r["npaths"] += 1
+        if rec["status"] == "violation":
+            r["nviol"] += 1
         if on_record:
             on_record(jid, rec)
         r["records"].append(_slim(rec))
